@@ -107,6 +107,8 @@ def install_deadline_loop(h, w, F, T, ev):
 
     def wait_hook(it2, event):
         cm = cur_timeout()
+        h.oblige("the response event is only ever awaited under an armed deadline (silence can always be detected)",
+                 cm is not None and cm.when is not None, kind="site")
         if it2.path.branch(event.flag) if not isinstance(event.flag, bool) else event.flag:
             return True  # already set: no suspension
         aio.suspend(it2, ("event.wait",))
@@ -131,6 +133,7 @@ def install_deadline_loop(h, w, F, T, ev):
 
     def outer_hook(it2, node, env):
         # one arbitrary monitoring cycle: any clock value, any flag, any connection state
+        h.oblige("the monitoring loop runs until cancelled (its loop test is constantly true)", it2.eval(node.test, env) is True, kind="loop-test")
         if state["outer"] == 0:
             state["outer"] = 1
             ghost["L"] = aio.now(it2)
@@ -141,6 +144,7 @@ def install_deadline_loop(h, w, F, T, ev):
     def inner_hook(it2, node, env):
         cm = cur_timeout()
         t_enter = ghost["L"]
+        h.oblige("the response loop only ends through the deadline (its loop test is constantly true)", it2.eval(node.test, env) is True, kind="loop-test")
         h.oblige("the deadline is armed when monitoring starts (and again after every expiry): when == now + timeout",
                  And(cm is not None, cm.when is not None, h.eq(cm.when, t_enter + T) if cm is not None and cm.when is not None else False),
                  kind="loop-init")
@@ -219,6 +223,8 @@ def heartbeat_loop(h):
     t = {}
 
     def hook(it2, node, env):
+        h.oblige("the heartbeat loop runs until cancelled, whatever the connection state (its loop test is constantly true)",
+                 it2.eval(node.test, env) is True, kind="loop-test")
         if state["n"] == 0:
             state["n"] = 1
             t["start"] = aio.now(it2)
